@@ -281,11 +281,19 @@ class Ref:
             self.taint.append(name)
 
     def liveness(self, generic, detail):
-        """a deviation in who-is-connected bookkeeping: attribute to a taint if one is present"""
-        for name in ("F07", "F34", "F35", "F33"):
-            if name in self.taint:
-                return Deviation(["C04:%s" % name] + (["C06:F33"] if name == "F33" else []), detail + " (after shape %s)" % name)
-        return Deviation([generic], detail)
+        """a deviation that depends on who is connected / registered: if the shape of a known finding
+        occurred earlier in this case, the deviation is attributed to it (first shape wins)"""
+        if self.taint:
+            name = self.taint[0]
+            cl = ["C04:%s" % name] + (["C06:F33"] if name == "F33" else [])
+            return Deviation(cl, detail + " (after shape %s)" % name)
+        return Deviation([generic] if isinstance(generic, str) else list(generic), detail)
+
+    def closed_dev(self, h, detail):
+        """an operation on a handle the reference holds closed did not fail"""
+        if h.get("mark"):
+            return Deviation(["C04:%s" % h["mark"]], detail + " (handle %s)" % {"F07": "converted after close", "F34": "cloned from a closed handle"}[h["mark"]])
+        return Deviation(["C04:closed-handle-accepts"], detail)
 
     def intro(self, v, where):
         if v in self.loc:
@@ -299,9 +307,7 @@ class Ref:
             if w in got:
                 got.remove(w)
             else:
-                if "F33" in self.taint:
-                    raise Deviation(["C06:F33", "C04:F33"], "%s: waker %d not woken (wakes=%r) after a second outstanding receive on a single-slot store" % (what, w, wakes))
-                raise Deviation(["C06:missed-wake"], "%s: waker %d not woken (wakes=%r)" % (what, w, wakes))
+                raise self.liveness("C06:missed-wake", "%s: waker %d not woken (wakes=%r)" % (what, w, wakes))
 
     def expect_drops(self, need, drops, opname, recv_future=False):
         for d in drops:
@@ -393,7 +399,7 @@ class Ref:
             full_tok = "full" if k == "ts" else "block"
             if h["closed"]:
                 if r0 != closed_tok:
-                    raise Deviation(["C04:closed-handle-accepts"], "%s on a handle whose close() returned Ok answered `%s`" % (opn, res))
+                    raise self.closed_dev(h, "%s on a handle whose close() returned Ok answered `%s`" % (opn, res))
                 exp = closed_tok
             elif self.open("R") == 0:
                 if r0 != closed_tok:
@@ -403,15 +409,13 @@ class Ref:
                 if r0 != "ok":
                     if r0 == closed_tok:
                         raise self.liveness("C04:closed-with-live-rx", "%s answered `%s` although a receiver handle is open" % (opn, res))
-                    if "F33" in self.taint:
-                        raise Deviation(["C06:F33", "C04:F33"], "%s answered `%s` although a receive is parked (its registration was overwritten)" % (opn, res))
-                    raise Deviation(["C03:try-send-wrong"], "%s answered `%s` although a receive is parked" % (opn, res))
+                    raise self.liveness("C03:try-send-wrong", "%s answered `%s` although a receive is parked" % (opn, res))
                 exp = "ok"
             else:
                 if r0 != full_tok:
                     if r0 == closed_tok:
                         raise self.liveness("C04:closed-with-live-rx", "%s answered `%s` although a receiver handle is open" % (opn, res))
-                    raise Deviation(["C03:try-send-wrong"], "%s answered `%s` although no receive is parked" % (opn, res))
+                    raise self.liveness("C03:try-send-wrong", "%s answered `%s` although no receive is parked" % (opn, res))
                 exp = full_tok
             if exp == "ok":
                 w = self.handoff_to_parked_receiver(v)
@@ -430,9 +434,8 @@ class Ref:
             if not h or h["side"] != "R" or (k != "tr" and h["async"]):
                 return na()
             if h["closed"]:
-                if r0 == "val":
-                    raise Deviation(["C04:closed-handle-accepts"], "%s on a closed handle returned %s" % (" ".join(op), res))
-                want("disc", "C04:closed-handle-accepts")
+                if res != "disc":
+                    raise self.closed_dev(h, "%s on a handle whose close() returned Ok answered `%s`" % (" ".join(op), res))
                 self.expect_drops([], drops, " ".join(op))
                 return
             if k == "rt":
@@ -474,9 +477,11 @@ class Ref:
             if not h:
                 return na()
             if h["closed"]:
-                if res == "ok":
-                    raise self.liveness("C04:double-close", "%s: second close of a closed handle returned Ok" % " ".join(op))
-                want("closeerr", "C04:double-close")
+                if res != "closeerr":
+                    d = self.closed_dev(h, "%s: close of a handle whose close() already returned Ok answered `%s`" % (" ".join(op), res))
+                    if d.clauses == ["C04:closed-handle-accepts"]:
+                        d.clauses = ["C04:double-close"]
+                    raise d
                 self.expect_drops([], drops, " ".join(op))
                 return
             want("ok", "C04:close-failed")
@@ -507,9 +512,10 @@ class Ref:
             if not h or a[1] in hs or not (self.txc if h["side"] == "T" else self.rxc):
                 return na()
             want("none", "bad-output")
+            hs[a[1]] = {"side": h["side"], "async": h["async"], "closed": h["closed"]}
             if h["closed"]:
                 self.t("F34")
-            hs[a[1]] = {"side": h["side"], "async": h["async"], "closed": h["closed"]}
+                hs[a[1]]["mark"] = "F34"
             self.expect_wakes([], wakes, " ".join(op))
             self.expect_drops([], drops, " ".join(op))
             return
@@ -521,6 +527,7 @@ class Ref:
             want("none", "bad-output")
             if h["closed"]:
                 self.t("F07")
+                h.setdefault("mark", "F07")
             h["async"] = not h["async"]
             self.expect_drops([], drops, " ".join(op))
             return
@@ -578,16 +585,15 @@ class Ref:
                 else:  # new: a fresh attempt with payload f["cell"]
                     v = f["cell"]
                     if h["closed"]:
-                        self.t("F35")
                         if res != "rclosed":
+                            if h.get("mark"):
+                                raise self.closed_dev(h, "%s: a send future on a closed handle answered `%s`" % (opn, res))
                             raise Deviation(["C04:F35"], "%s: a send future on a handle whose close() returned Ok answered `%s` instead of Closed" % (opn, res))
                     elif self.open("R") == 0:
                         if res != "rclosed":
                             raise self.liveness("C04:send-after-last-rx", "%s: expected `rclosed`, got `%s`" % (opn, res))
                     elif self.prq:
                         if res != "rok":
-                            if "F33" in self.taint:
-                                raise Deviation(["C06:F33", "C04:F33"], "%s: expected `rok` (a receive is parked), got `%s`" % (opn, res))
                             raise self.liveness("C03:send-not-paired", "%s: expected `rok` (a receive is parked), got `%s`" % (opn, res))
                         wk = self.handoff_to_parked_receiver(v)
                         f["cell"] = None
@@ -609,7 +615,7 @@ class Ref:
                     if r0 == "rval" and rtok[1:] != [str(v)]:
                         raise Deviation(["C02:order"], "%s returned %s, it was handed %d" % (opn, res, v))
                     if res != "rval %d" % v:
-                        raise Deviation(["C01:lost"], "%s: expected `rval %d`, got `%s`" % (opn, v, res))
+                        raise self.liveness("C01:lost", "%s: expected `rval %d`, got `%s`" % (opn, v, res))
                     self.loc[v] = "recv"
                     f["cell"] = None
                     f["phase"] = "new"
@@ -620,14 +626,13 @@ class Ref:
                     f["phase"] = "new"
                 elif ph == "parked":
                     if res != "pending":
-                        if "F33" in self.taint:
-                            raise Deviation(["C06:F33", "C04:F33"], "%s: a parked receive answered `%s` while a sender handle is open (its registration was overwritten)" % (opn, res))
-                        raise self.liveness("C06:parked-recv-resolved", "%s: expected `pending`, got `%s`" % (opn, res))
+                        raise self.liveness("C06:parked-recv-resolved", "%s: a parked receive answered `%s` although nothing was handed to it and a sender handle is open" % (opn, res))
                     f["w"] = w
                 else:  # new
                     if h["closed"]:
-                        self.t("F35")
                         if res != "rdisc":
+                            if h.get("mark"):
+                                raise self.closed_dev(h, "%s: a receive future on a closed handle answered `%s`" % (opn, res))
                             raise Deviation(["C04:F35"], "%s: a receive future on a handle whose close() returned Ok answered `%s` instead of Disconnected" % (opn, res))
                     elif self.psq:
                         v, wk = self.take_from_parked_sender()
@@ -758,6 +763,13 @@ class RvEngine(Engine):
             return [h for h, d in sorted(sim.hs.items())
                     if (side is None or d[0] == side) and (mode is None or d[1] == mode)]
 
+        shapes = rng.chance(1, 4)     # does this case go looking for the shapes of the known findings?
+
+        def prefer_open(hl):
+            if shapes:
+                return hl
+            return [h for h in hl if not sim.hs[h][2]]
+
         def anyh(side=None, mode=None):
             hs = handles(side, mode)
             if malformed and rng.chance(1, 6):
@@ -808,17 +820,24 @@ class RvEngine(Engine):
                 h = anyh("R", False)
                 emit(["r" if safe_blocking("r", h) else "tr", h])
             elif k == "rt":
+                if not multi and sim.rq and not shapes:
+                    continue
                 emit(["rt", anyh("R", False)])
             elif k in ("ms", "mr"):
                 side = "T" if k == "ms" else "R"
                 hs = handles(side, True)
                 if not hs:
                     # make an async handle of that side first
-                    cand = [h for h in handles(side, False) if not sim.borrowed(h)]
+                    cand = prefer_open([h for h in handles(side, False) if not sim.borrowed(h)])
                     if cand:
                         emit(["cv", rng.pick(cand)])
                     hs = handles(side, True)
+                hs = prefer_open(hs)
+                if not hs and not shapes:
+                    continue
                 h = rng.pick(hs) if hs and not (malformed and rng.chance(1, 6)) else anyh(side)
+                if k == "mr" and not multi and sim.rq and not shapes:
+                    continue      # a second outstanding receive on the single-slot store (F-33)
                 f = st["f"]
                 st["f"] += 1
                 if malformed and rng.chance(1, 8) and sim.fs:
@@ -833,12 +852,23 @@ class RvEngine(Engine):
                 fl_ = futs()
                 if not fl_:
                     continue
+                if not shapes:
+                    ok = [f for f in fl_ if sim.fs[f]["reg"] or not sim.hs[sim.fs[f]["h"]][2]
+                          or (sim.fs[f]["side"] == "T" and sim.fs[f]["cell"] is None)]
+                    ok = [f for f in ok if multi or sim.fs[f]["side"] == "T" or sim.fs[f]["reg"] or not sim.rq]
+                    if not ok:
+                        continue
+                    fl_ = ok
                 f = rng.pick(fl_) if not (malformed and rng.chance(1, 8)) else rng.below(st["f"] + 2)
                 emit(["p", f, f % 7 if rng.chance(2, 3) else rng.below(7)])
             elif k == "df":
                 fl_ = futs()
                 if fl_:
-                    emit(["df", rng.pick(fl_)])
+                    f = rng.pick(fl_)
+                    d = sim.fs[f]
+                    if d["side"] == "R" and d["cell"] is not None and not shapes:
+                        emit(["p", f, rng.below(7)])     # take the value first (otherwise: F-31)
+                    emit(["df", f])
             elif k == "cl":
                 emit(["cl", anyh()])
             elif k == "dh":
@@ -853,9 +883,11 @@ class RvEngine(Engine):
                 if side and len(sim.hs) < 7:
                     h2 = st["h"]
                     st["h"] += 1
-                    emit(["cn", anyh(side), h2])
+                    src = prefer_open(handles(side))
+                    if src or shapes or malformed:
+                        emit(["cn", rng.pick(src) if src and not malformed else anyh(side), h2])
             elif k == "cv":
-                cand = [h for h in handles() if not sim.borrowed(h)]
+                cand = prefer_open([h for h in handles() if not sim.borrowed(h)])
                 if cand:
                     emit(["cv", rng.pick(cand) if not malformed else anyh()])
             elif k == "ob":
@@ -865,7 +897,8 @@ class RvEngine(Engine):
             fl_ = futs()
             while fl_:
                 f = fl_.pop(rng.below(len(fl_)))
-                if rng.chance(1, 3):
+                d = sim.fs[f]
+                if rng.chance(1, 3) or (d["side"] == "R" and d["cell"] is not None and not shapes):
                     emit(["p", f, rng.below(7)])
                 emit(["df", f])
             hl = handles()
@@ -904,3 +937,62 @@ class RvEngine(Engine):
 
 ENGINES = [RvEngine(f) for f in ("spsc", "mpsc", "mpmc")]
 BY = {e.fl: e for e in ENGINES}
+
+
+# ----------------------------------------------------------------------------------------------
+# wiring for vlib/multiprop.py
+_INFO = {"name": "E-CHANOPS-rv",
+         "path": "coq/Chan/Rendezvous.v, coq/Proofs/Rendezvous*.v, coq/Props/C0x_rv.v, ocaml/eng_rv.ml, "
+                 "harness/seqdrv/src/bin/rv.rs, vlib/engines_rv.py",
+         "kind": "K2 op-level model of spsc/mpsc/mpmc ::rendezvous (one API call / one poll / one drop of a "
+                 "future = one step; create/poll/drop of futures, sync try/blocking/timed forms, clone, close, drop, "
+                 "to_sync/to_async, observers); theorems by induction over all histories; D1 differential tie"}
+_ASSUME = [
+    "rv: sequential (K2) histories only; the cancel-vs-handoff race of finding F-01 needs a K3 model (docs/rv.md)",
+    "rv: blocking send/recv are executed only where they return at once; recv_timeout only with a zero timeout",
+    "rv: usize counters modelled on N; underflow is the output PANIC (harness profile has overflow-checks on)",
+    "rv: futures borrow their handle, so a handle with live futures is never dropped or converted (borrow checker)",
+]
+
+
+def _w(fl, line):
+    return "%s %s" % (fl, line.replace("MASK", FIXMASK))
+
+
+def _witness(prop):
+    w = {}
+    for fl in ("spsc", "mpsc", "mpmc"):
+        e = BY[fl]
+        if prop in ("C01", "C06"):
+            w["F-31-" + fl] = (e, _w(fl, "a MASK mr 10 1 p 10 0 ts 0 100 df 10"), prop + ":F31")
+        if prop in ("C04", "C06") and fl != "mpmc":
+            w["F-33-" + fl] = (e, _w(fl, "a MASK mr 10 1 mr 11 1 p 10 0 p 11 1 p 10 0"), prop + ":F33")
+        if prop == "C04":
+            if not FIX_CONV:
+                w["F-07-" + fl] = (e, _w(fl, "s MASK cn 0 2 cl 0 cv 0 dh 0 tr 1") if fl != "spsc"
+                                   else _w(fl, "s MASK cl 0 cv 0 dh 0"), "C04:F07")
+            if not FIX_FUT:
+                w["F-35-" + fl] = (e, _w(fl, "a MASK cl 0 ms 10 0 100 p 10 0 tr 1"), "C04:F35")
+            if not FIX_CLONE and fl != "spsc":
+                w["F-34-" + fl] = (e, _w(fl, "a MASK cl 0 tr 1 cn 0 2 ts 2 100"), "C04:F34")
+    return w
+
+
+_COVERS = {
+    "C01": "rendezvous spsc/mpsc/mpmc (K2, sync+async): conservation multiset equation for all histories, no duplicate/phantom "
+           "delivery, failed ops leave the state unchanged and hand back their input; acknowledged sends are delivered except "
+           "finding F-31 (refuted/except pair)",
+    "C02": "rendezvous (K2): handoffs happen in offer order (no overtaking of parked senders), cancel removes in place",
+    "C03": "rendezvous (K2): capacity 0 -- nothing is ever buffered, try_send succeeds iff it pairs with a parked receive, "
+           "len/capacity report 0",
+    "C04": "rendezvous (K2): counts = open handles, drain-then-Disconnected, Closed hands the value back, clone isolation, close "
+           "idempotence for the repaired model; shipped model refuted by F-07/F-34/F-35 (refuted/except pairs)",
+    "C06": "rendezvous (K2): no missed wake for all create/poll/drop histories, no dangling registration after a drop; "
+           "dropping a completed receive future loses its value (F-31), single-slot store overwrite (F-33)",
+    "C09": "rendezvous (K2): every payload in exactly one of handed-back/received/destroyed/in-a-future at every point; all "
+           "resolved after any teardown order",
+}
+
+PROPS = {p: {"engines": ENGINES, "witness": _witness(p), "assumptions": _ASSUME, "covers": _COVERS[p],
+             "engine_info": _INFO}
+         for p in ("C01", "C09")}
